@@ -57,9 +57,12 @@ struct World
 	bool in_drain;
 	uint64_t actions;
 	unsigned long uniq_ctr;
+	uint64_t retrieve_sent;                                          // l-retrieve requests put on the wire
+	uint64_t core_sent, core_recv;                                   // protocol messages proper (actions 1..5)
+	std::vector<bool> desynced;                                      // a short tuple left this Byzantine party
 	CerrCapture cap;
 
-	World(const Plan &p) : plan(p), S(p.seed, 8), in_drain(false), actions(0), uniq_ctr(0) {}
+	World(const Plan &p) : plan(p), S(p.seed, 8), in_drain(false), actions(0), uniq_ctr(0), retrieve_sent(0), core_sent(0), core_recv(0) {}
 
 	std::string chan_key(const std::vector<int> &path) const
 	{
@@ -144,7 +147,11 @@ static void record_delivery(World &W, size_t p, size_t from, mpz_srcptr m, const
 	std::vector<std::string> &dl = ps.delivered[chan][from];
 	std::ostringstream where; where << "receiver=" << p << " sender=" << from << " chan=" << chan << " via=" << how
 		<< " value=" << v;
-	if (std::find(dl.begin(), dl.end(), v) != dl.end())
+	// a value that the harness can attribute to exactly one slot must not be delivered twice (payloads
+	// of honest senders are unique by construction; those of a Byzantine sender only if they left
+	// through the harness and its link was never de-synchronised by a short tuple)
+	bool attributable = !W.P[from].byz || (W.byz_payload_tag.count(v) && !W.desynced[from]);
+	if (attributable && std::find(dl.begin(), dl.end(), v) != dl.end())
 	{
 		W.violate("integrity_duplicate", "slot delivered twice: " + where.str());
 		return;
@@ -178,8 +185,8 @@ static void record_delivery(World &W, size_t p, size_t from, mpz_srcptr m, const
 	else
 	{
 		std::map<std::string, std::string>::iterator it = W.byz_payload_tag.find(v);
-		if (it == W.byz_payload_tag.end())
-			W.res.cnt["probe.byz_unknown_payload"]++;
+		if (it == W.byz_payload_tag.end() || W.desynced[from])
+			W.res.cnt["probe.byz_unattributable_payload"]++;
 		else
 		{
 			W.res.cnt["probe.byz_value_delivered"]++;
@@ -277,9 +284,10 @@ static bool deliver_attempt(World &W, size_t p, int mode, size_t from)
 {
 	PartyState &ps = W.P[p];
 	W.S.single_party = (int)p;
+	if (W.retrieve_sent > 3000) return false; // retrieve storm: every further call only feeds it
 	size_t inbox_before = 0;
 	for (size_t s = 0; s < W.n; s++) inbox_before += W.net->inbox[p][s].size();
-	uint64_t sent_before = W.net->units_sent;
+	uint64_t sent_before = W.core_sent, recv_before = W.core_recv;
 	mpz_t m; mpz_init(m);
 	bool got = false; size_t who = W.n;
 	W.actions++;
@@ -306,7 +314,10 @@ static bool deliver_attempt(World &W, size_t p, int mode, size_t from)
 	size_t inbox_after = 0;
 	for (size_t s = 0; s < W.n; s++) inbox_after += W.net->inbox[p][s].size();
 	W.S.hist.add(H_OP, 2, p, (got ? 1 : 0) | (mode << 1));
-	return got || (inbox_after != inbox_before) || (W.net->units_sent != sent_before);
+	// progress = a value came out, a unit was consumed, or a protocol message proper was sent.  (A
+	// retrieve storm, see the drain phase, is bounded separately.)
+	(void)recv_before;
+	return got || (inbox_after != inbox_before) || (W.core_sent != sent_before);
 }
 
 // every r-send leaving a Byzantine party carries a payload that the harness can attribute to exactly
@@ -362,7 +373,7 @@ static void byz_filter_inner(World &W, size_t src, size_t dst, const Unit &u, st
 			case 3: v.ints[3] = std::to_string((size_t)(h % 10)); W.res.cnt["fault.byz_mut_action"]++;
 				break;
 			case 4: out.push_back(u); W.res.cnt["fault.byz_dup"]++; break;
-			case 5: v.ints.resize(1 + (h % 4)); W.res.cnt["fault.byz_truncate"]++; break;
+			case 5: v.ints.resize(1 + (h % 4)); W.res.cnt["fault.byz_truncate"]++; W.desynced[src] = true; break;
 		}
 		mpz_clear(m);
 		out.push_back(v); return;
@@ -380,46 +391,96 @@ static void byz_filter(World &W, size_t src, size_t dst, const Unit &u, std::vec
 
 static void inject(World &W, const Op &op)
 {
-	// f_inj z dst tmpl kind
+	// f_inj z dst slot kind : a focused adversary.  The target tag is one of z's own broadcasts
+	// (slot-th r-send seen from z) or, if z has not broadcast yet, any r-send seen on the wire.
+	// kind%16 selects the message, (kind/16)%2 one of two payload variants R0/R1 derived from the
+	// tag, (kind/32)%2 "flood": the message is sent n times to every party instead of once to dst.
 	std::vector<size_t> byz;
 	for (size_t i = 0; i < W.n; i++) if (W.P[i].byz) byz.push_back(i);
 	if (byz.empty() || W.wirelog.empty()) return;
 	size_t z = byz[(size_t)op.arg(0) % byz.size()];
 	size_t dst = (size_t)op.arg(1) % W.n;
-	const Unit &tm = W.wirelog[(size_t)op.arg(2) % W.wirelog.size()].second;
-	if (tm.ints.size() != 5) return;
-	int kind = (int)(op.arg(3) % 14);
-	Unit u = tm;
-	uint64_t h = derive(W.plan.seed ^ 0x1A7ULL, (uint64_t)op.arg(2) * 131 + op.arg(3) * 7 + dst);
+	std::vector<const Unit*> own, any;
+	for (size_t i = 0; i < W.wirelog.size(); i++)
+	{
+		const Unit &w = W.wirelog[i].second;
+		if (w.ints.size() != 5 || w.ints[3] != "1") continue;
+		any.push_back(&w);
+		if (W.wirelog[i].first == z) own.push_back(&w);
+	}
+	const Unit *tmp = NULL;
+	if (!own.empty() && (op.arg(2) % 4) != 3) tmp = own[(size_t)(op.arg(2) / 4) % own.size()];
+	else if (!any.empty()) tmp = any[(size_t)(op.arg(2) / 4) % any.size()];
+	else return;
+	Unit u = *tmp;
+	int kind = (int)(op.arg(3) % 16);
+	int variant = (int)((op.arg(3) / 16) % 2);
+	bool flood = ((op.arg(3) / 32) % 2) == 1;
+	std::string tag = u.ints[0] + "|" + u.ints[1] + "|" + u.ints[2];
+	uint64_t h = 1469598103934665603ULL;
+	for (size_t i = 0; i < tag.size(); i++) { h ^= (unsigned char)tag[i]; h *= 1099511628211ULL; }
+	h = derive(W.plan.seed ^ h, 77 + variant);
 	mpz_t rnd, dg; mpz_init(rnd); mpz_init(dg);
 	mpz_set_ui(rnd, 1); mpz_mul_2exp(rnd, rnd, 90); mpz_add_ui(rnd, rnd, (unsigned long)(h & 0xffffffffffffULL));
 	tmcg_mpz_shash(dg, 1, rnd);
-	std::string tag = u.ints[0] + "|" + u.ints[1] + "|" + u.ints[2];
 	switch (kind)
 	{
-		case 0: break; // replay
-		case 1: u.ints[3] = "1"; u.ints[4] = mpz2s(rnd);
-			break;
-		case 2: u.ints[3] = "2"; u.ints[4] = mpz2s(dg); break;
-		case 3: u.ints[3] = "3"; u.ints[4] = mpz2s(dg); break;
-		case 4: u.ints[3] = "5"; u.ints[4] = mpz2s(rnd); break;
-		case 5: u.ints[3] = "4"; break;
-		case 6: u.ints[3] = "6"; u.ints[4] = "6"; break;
-		case 7: u.ints[3] = "7"; u.ints[4] = mpz2s(rnd); break;
-		case 8: u.ints[3] = "8"; u.ints[4] = "8"; break;
-		case 9: u.ints.resize(1 + (h % 4)); break;
+		case 0: break; // replay of the r-send as it was
+		case 1: u.ints[3] = "1"; u.ints[4] = mpz2s(rnd); break;          // r-send with variant payload
+		case 2: u.ints[3] = "2"; u.ints[4] = mpz2s(dg); break;           // r-echo for the variant digest
+		case 3: u.ints[3] = "3"; u.ints[4] = mpz2s(dg); break;           // r-ready for the variant digest
+		case 4: u.ints[3] = "5"; u.ints[4] = mpz2s(rnd); break;          // r-answer with the variant payload
+		case 5: u.ints[3] = "4"; break;                                  // r-request
+		case 6: u.ints[3] = "6"; u.ints[4] = "6"; break;                 // l-retrieve
+		case 7: u.ints[3] = "7"; u.ints[4] = mpz2s(rnd); break;          // l-deliver with the variant payload
+		case 8: u.ints[3] = "8"; u.ints[4] = "8"; break;                 // l-fail
+		case 9: u.ints.resize(1 + (h % 4)); W.desynced[z] = true; break;  // short tuple: desynchronises the link
 		case 10: u.ints[1] = (h & 1) ? "-1" : "ffffffffffffffffffffffff"; u.ints[2] = (h & 2) ? "0" : "-5"; break;
-		case 11: u.ints[3] = (h & 1) ? "0" : "9"; break;
-		case 12: u.ints[3] = "5"; break; // unsolicited r-answer carrying the payload of the template
-		case 13: // r-ready for the digest of the template's payload
+		case 11: u.ints[3] = (h & 1) ? "0" : "9"; break;                 // unknown action
+		case 12: u.ints[3] = "5"; break;                                 // unsolicited r-answer with the original payload
+		case 13: // r-ready for the digest of the original payload
+		case 14: // r-echo for the digest of the original payload
 			{ mpz_t m, d; mpz_init(m); mpz_init(d); s2mpz(m, u.ints[4]); tmcg_mpz_shash(d, 1, m);
-			  u.ints[3] = "3"; u.ints[4] = mpz2s(d); mpz_clear(m); mpz_clear(d); }
+			  u.ints[3] = (kind == 13) ? "3" : "2"; u.ints[4] = mpz2s(d); mpz_clear(m); mpz_clear(d); }
+			break;
+		case 15: // r-send of the variant payload under the next sequence number
+			{ mpz_t m; mpz_init(m); s2mpz(m, u.ints[2]); mpz_add_ui(m, m, 1); u.ints[2] = mpz2s(m); mpz_clear(m);
+			  u.ints[4] = mpz2s(rnd); }
 			break;
 	}
 	mpz_clear(rnd); mpz_clear(dg);
 	W.res.cnt[std::string("fault.byz_inject_") + std::to_string(kind)]++;
+	if (flood) W.res.cnt["fault.byz_inject_flood"]++;
 	register_byz_send(W, u);
-	W.net->enqueue(z, dst, u);
+	if (!flood)
+		W.net->enqueue(z, dst, u);
+	else
+		for (size_t d = 0; d < W.n; d++)
+			for (size_t k = 0; k < W.n; k++)
+				W.net->enqueue(z, d, u);
+}
+
+static bool deliver_attempt(World &W, size_t p, int mode, size_t from);
+static bool hand_nth(World &W, size_t a);
+
+// hand over everything and let every party work off its inbox without touching the script; in
+// DeliverFrom mode each party asks for one fixed sender, so that values of the other senders pile
+// up in the per-sender buffers (the way the n-party protocols use the call)
+static void flush(World &W, size_t a)
+{
+	for (int guard = 0; guard < 20000; guard++)
+		if (!hand_nth(W, a * 7 + guard)) break;
+	for (size_t p = 0; p < W.n && W.res.ok(); p++)
+	{
+		for (int guard = 0; guard < 400 && W.res.ok(); guard++)
+		{
+			size_t inb = 0;
+			for (size_t s2 = 0; s2 < W.n; s2++) inb += W.net->inbox[p][s2].size();
+			if (!inb) break;
+			deliver_attempt(W, p, chan_mode(W, p), a + p);
+		}
+	}
+	W.res.cnt["probe.flush_ops"]++;
 }
 
 static bool hand_nth(World &W, size_t a)
@@ -537,9 +598,10 @@ static Plan rbc_generate(uint64_t seed, const Tier &tier)
 	for (int s = 0; s < sched; s++)
 	{
 		unsigned c = (unsigned)g.below(100);
-		if (c < 45) p.ops.push_back(Op("hand", (int64_t)g.below(1000)));
+		if (c < 4) p.ops.push_back(Op("flush", (int64_t)g.below(64)));
+		else if (c < 45) p.ops.push_back(Op("hand", (int64_t)g.below(1000)));
 		else if (c < 90 || !faults) p.ops.push_back(Op("act", (int64_t)g.below(n), (int64_t)g.below(8), (int64_t)g.below(n)));
-		else if (c < 96 && byzmask) p.ops.push_back(Op("f_inj", (int64_t)g.below(8), (int64_t)g.below(n), (int64_t)g.below(100000), (int64_t)g.below(14)));
+		else if (c < 96 && byzmask) p.ops.push_back(Op("f_inj", (int64_t)g.below(8), (int64_t)g.below(n), (int64_t)g.below(64), (int64_t)g.below(64)));
 		else if (c < 98 && !parted && n >= 3) { p.ops.push_back(Op("f_part", (int64_t)g.range(1, (1 << n) - 2))); parted = true; }
 		else if (parted) { p.ops.push_back(Op("f_heal")); parted = false; }
 		else p.ops.push_back(Op("hand", (int64_t)g.below(1000)));
@@ -574,7 +636,16 @@ static RunResult rbc_execute(const Plan &plan)
 			aiounicast::aio_scheduler_roundrobin, aiounicast::aio_timeout_none, (size_t)W.fifo_skip));
 	}
 	World *Wp = &W;
-	W.net->tap = [Wp](size_t src, size_t, const Unit &u){ if (Wp->wirelog.size() < 4000) Wp->wirelog.push_back(std::make_pair(src, u)); };
+	W.desynced.assign(W.n, false);
+	auto is_core = [](const std::vector<std::string> &v){ return v.size() == 5 && v[3].size() == 1 && v[3][0] >= '1' && v[3][0] <= '5'; };
+	W.net->tap = [Wp, is_core](size_t src, size_t, const Unit &u){
+		if (is_core(u.ints)) Wp->core_sent++;
+		if (u.ints.size() == 5 && u.ints[3] == "6") Wp->retrieve_sent++;
+		if (Wp->wirelog.size() < 4000) Wp->wirelog.push_back(std::make_pair(src, u)); };
+	static bool trace = getenv("TMCGSIM_TRACE") != NULL;
+	W.net->on_receive = [Wp, is_core](size_t dst, size_t src, const std::vector<std::string> &ints){
+		if (is_core(ints)) Wp->core_recv++;
+		if (trace) { std::cerr << "TRACE recv at " << dst << " from " << src << ":"; for (size_t k = 0; k < ints.size(); k++) std::cerr << " " << ints[k].substr(0, 12); std::cerr << std::endl; } };
 	W.net->filter = [Wp](size_t src, size_t dst, const Unit &u, std::vector<Unit> &out){ byz_filter(*Wp, src, dst, u, out); };
 	// script
 	for (size_t i = 0; i < plan.ops.size(); i++)
@@ -625,6 +696,7 @@ static RunResult rbc_execute(const Plan &plan)
 	{
 		const Op &op = plan.ops[i];
 		if (op.kind == "hand") { if (hand_nth(W, (size_t)op.arg(0))) W.res.cnt["probe.handovers"]++; }
+		else if (op.kind == "flush") flush(W, (size_t)op.arg(0));
 		else if (op.kind == "act")
 		{
 			size_t p = (size_t)op.arg(0) % W.n;
@@ -653,8 +725,15 @@ static RunResult rbc_execute(const Plan &plan)
 	uint64_t rounds = 0;
 	const uint64_t max_rounds = 400;
 	bool quiescent = false;
+	// Retrieve storm: once a Byzantine sender got a far-future sequence number acknowledged, every
+	// honest party sends up to 40 l-retrieve requests per call and the queues grow faster than they are
+	// served.  Delivery still happens "eventually", which is all C14 promises, but no step budget can
+	// tell; such runs keep their safety checks and are not judged for liveness.
+	const uint64_t storm_limit = 1500;
+	bool storm = false;
 	while (W.res.ok() && rounds < max_rounds)
 	{
+		if (W.retrieve_sent > storm_limit) { storm = true; break; }
 		rounds++;
 		bool any = false;
 		// hand over everything in a seeded order
@@ -668,10 +747,17 @@ static RunResult rbc_execute(const Plan &plan)
 			size_t p = (k + rounds) % W.n;
 			if (party_drain(W, p)) any = true;
 		}
+		size_t core_in_flight = 0;
+		for (size_t a = 0; a < W.n; a++) for (size_t b = 0; b < W.n; b++)
+			for (size_t k = 0; k < W.net->flight[a][b].size(); k++)
+				if (is_core(W.net->flight[a][b][k].ints)) core_in_flight++;
+		(void)core_in_flight;
 		if (!any && W.net->in_flight() == 0) { quiescent = true; break; }
 	}
 	W.res.cnt["probe.drain_rounds_max"] = rounds;
-	if (W.res.ok())
+	if (W.retrieve_sent > storm_limit) storm = true;
+	if (storm) W.res.cnt["probe.retrieve_storm_runs"]++;
+	if (W.res.ok() && !storm)
 	{
 		if (!quiescent)
 			W.violate("liveness_no_quiescence", "drain phase did not become quiescent in " + std::to_string(max_rounds) + " rounds");
@@ -729,6 +815,20 @@ static RunResult rbc_execute(const Plan &plan)
 	}
 	// ---- probes from library chatter
 	std::string err = W.cap.str();
+	if (getenv("TMCGSIM_TRACE"))
+	{
+		printf("---- library stderr ----\n%s\n---- deliveries ----\n", err.c_str());
+		for (size_t p = 0; p < W.n; p++)
+			for (std::map<std::string, std::vector<std::vector<std::string> > >::iterator it = W.P[p].delivered.begin(); it != W.P[p].delivered.end(); ++it)
+				for (size_t s2 = 0; s2 < it->second.size(); s2++)
+					for (size_t k = 0; k < it->second[s2].size(); k++)
+						printf("party %zu chan %s sender %zu [%zu] %s\n", p, it->first.c_str(), s2, k, it->second[s2][k].c_str());
+		for (std::map<std::string, Bcast>::iterator it = W.bcast_index.begin(); it != W.bcast_index.end(); ++it)
+			printf("bcast %s sender %zu chan %s seq %zu\n", it->first.c_str(), it->second.sender, it->second.chan.c_str(), it->second.seq);
+		for (size_t p = 0; p < W.n; p++)
+			printf("party %zu byz=%d sp=%zu/%zu chan=%s\n", p, (int)W.P[p].byz, W.P[p].sp, W.script.size(), W.chan_key(W.P[p].path).c_str());
+		fflush(stdout);
+	}
 	W.res.cnt["probe.r_request_path"] += count_substr(err, "not ready for processing") + count_substr(err, "bad r-answer");
 	W.res.cnt["probe.faked_r_send"] += count_substr(err, "received faked r-send");
 	W.res.cnt["probe.l_retrieve_sent"] += count_substr(err, "l-retrieve sent");
